@@ -214,6 +214,16 @@ let popdata_t = function
   | R [v; c; t; a] -> { pop_version = zt v; pop_context = lt vbkblock_t c; pop_vtbs = lt vtb_t t; pop_atvs = lt atv_t a }
   | _ -> failwith "popdata"
 
+let t_altblock b = R [tb b.ab_hash; tb b.ab_prev; tz b.ab_height; tz b.ab_time]
+let altblock_t = function
+  | R [h; p; ht; t] -> { ab_hash = bt h; ab_prev = bt p; ab_height = zt ht; ab_time = zt t } | _ -> failwith "altblock"
+let t_keystones k = R [tb k.kc_first; tb k.kc_second]
+let keystones_t = function R [a; b] -> { kc_first = bt a; kc_second = bt b } | _ -> failwith "keystones"
+let t_ctxinfo c = R [tz c.ci_height; t_keystones c.ci_keystones]
+let ctxinfo_t = function R [h; k] -> { ci_height = zt h; ci_keystones = keystones_t k } | _ -> failwith "ctxinfo"
+let t_authctx c = R [t_ctxinfo c.ac_ctx; tb c.ac_state_root]
+let authctx_t = function R [c; r] -> { ac_ctx = ctxinfo_t c; ac_state_root = bt r } | _ -> failwith "authctx"
+
 (* ---- ops, generic in the codec ---- *)
 let nlen l = List.length l
 
@@ -249,6 +259,10 @@ let dispatch (op : string) (t : string) (arg : string) : string =
   | "btcblockraw" -> go c_btcblock_raw t_btcblock btcblock_t
   | "vbkblock" -> go c_vbkblock t_vbkblock vbkblock_t
   | "vbkblockraw" -> go c_vbkblock_raw t_vbkblock vbkblock_t
+  | "altblock" -> go c_altblock t_altblock altblock_t
+  | "keystones" -> go c_keystones t_keystones keystones_t
+  | "ctxinfo" -> go c_ctxinfo t_ctxinfo ctxinfo_t
+  | "authctx" -> go c_authctx t_authctx authctx_t
   | "merklepath" -> go c_merklepath t_merklepath merklepath_t
   | "vbkmerklepath" -> go c_vbkmerklepath t_vbkmerklepath vbkmerklepath_t
   | "pubdata" -> go c_pubdata t_pubdata pubdata_t
